@@ -288,6 +288,7 @@ func (l *tcpTransportListener) serve(listener net.Listener) {
 	for {
 		conn, err := listener.Accept()
 		if err != nil {
+			verifPoint("tcplistener:serve:accept-failed")
 			select {
 			case <-l.done:
 				return
